@@ -556,6 +556,13 @@ func newSlim(keys []string, bytesValues [][]byte, opt *Opt) (*Slim, error) {
 			idxs[i] = bmtree.PathToIndex(bitmapSize, p)
 		}
 
+		// A step is stored in 16 bits, in 4-bit words. A longer one would be
+		// truncated silently and the keys below this node would be lost.
+		if !*opt.InnerPrefix && (wordStart-o.fromKeyBit)>>2 > 0xffff {
+			return nil, errors.Wrapf(ErrStepTooLong,
+				"keys[%d:%d] share %d bits from bit %d", s, e, wordStart-o.fromKeyBit, o.fromKeyBit)
+		}
+
 		// Without the bits of label word at parent node
 		c.addInner(nid, idxs, bitmapSize, o.fromKeyBit, wordStart, keys[s])
 
